@@ -103,7 +103,9 @@ impl JobManager {
             }
         }
 
-        let id = self.jobs.len() + 1;
+        // Job IDs must be unique among live jobs; the table may have holes left by
+        // jobs that already completed, so its length is not a usable ID.
+        let id = self.jobs.iter().map(|j| j.id).max().unwrap_or(0) + 1;
         job.id = id;
         job.annotation = JobAnnotation::Current;
         self.jobs.push(job);
